@@ -64,7 +64,14 @@ func TestC11(t *testing.T) {
 				var m util.Message
 				if gen.Pick(rt, "real?", 5) == 0 {
 					g := gen.New(rt, 400)
-					lm, _ := g.MessageOf([]string{"flow_mod", "group_mod", "packet_out", "hello", "nx_tlv_table_mod", "set_config"}[gen.Pick(rt, "real_kind", 6)])
+					var lm util.Message
+					if rk := gen.Pick(rt, "real_kind", 7); rk == 6 {
+						// an error message with a payload (a proxy relaying a switch's answer, a test peer): its
+						// data sits in a buffer object that every encoding has to leave as it is
+						lm = g.SwitchMessageOf("error").Lib
+					} else {
+						lm, _ = g.MessageOf([]string{"flow_mod", "group_mod", "packet_out", "hello", "nx_tlv_table_mod", "set_config"}[rk])
+					}
 					// pin the xid: bytes 4..7 of the encoding identify producer and sequence
 					setXid(lm, xid)
 					m = lm
@@ -87,7 +94,7 @@ func TestC11(t *testing.T) {
 						}
 					}
 					f := make([]byte, size)
-					f[0], f[1] = 4, 2
+					f[0], f[1] = []byte{4, 4, 4, 4, 4, 4, 1, 5}[gen.Pick(rt, "raw_version", 8)], 2
 					binary.BigEndian.PutUint16(f[2:], uint16(size))
 					binary.BigEndian.PutUint32(f[4:], xid)
 					for i := 8; i < size; i++ {
@@ -222,6 +229,13 @@ func TestC11(t *testing.T) {
 			close(noiseDone)
 		}
 		ms := util.NewMessageStream(conn, copyingParser{})
+		// the stream has an exported field for the OpenFlow version of the connection; an application that
+		// records the negotiated version there (a third of the scripts: 1.0, 1.3 or 1.4) still gets every
+		// message written as submitted - messages of another version included (hello, a relayed frame)
+		if v := []uint8{0, 0, 0, 0, 0, 0, 1, 4, 5}[gen.Pick(rt, "stream_version_field", 9)]; v != 0 {
+			ms.Version = v
+			c.Label(fmt.Sprintf("stream.Version=%d", v))
+		}
 		var wg sync.WaitGroup
 		for p := 0; p < np; p++ {
 			wg.Add(1)
